@@ -186,6 +186,30 @@ func drivePoint(c *ctx) {
 		xb, xerr := p.XBytes()
 		c.E("pt.Enc", "p", ph, "unc", hx(p.UncompressedBytes()), "cmp", hx(p.CompressedBytes()), "x", hx(xb), "xerr", xerr != nil, "p_post", ptRaw(p))
 	}
+	// the y-parity of the identity: whatever the library defines it to be, it may not depend on the representative or on how the
+	// identity was computed (constructed, P - P, P + (-P), Negate(identity), 0 * P, ...)
+	{
+		var reps, outs []string
+		var vals []int
+		addInf := func(p *secp256k1.Point) {
+			reps = append(reps, ptRaw(p))
+			vals = append(vals, int(p.IsYOdd()))
+		}
+		addInf(secp256k1.NewIdentityPoint())
+		for _, a := range pool {
+			if a.p.IsIdentity() == 1 {
+				addInf(clonePt(a.p))
+				addInf(secp256k1.NewIdentityPoint().Negate(a.p))
+				addInf(secp256k1.NewIdentityPoint().ConditionalNegate(a.p, 1))
+			} else {
+				addInf(secp256k1.NewIdentityPoint().Subtract(a.p, a.p))
+				addInf(secp256k1.NewIdentityPoint().Add(a.p, neg(a.p)))
+				addInf(secp256k1.NewIdentityPoint().ScalarMult(secp256k1.NewScalar(), a.p))
+			}
+		}
+		_ = outs
+		c.E("pt.InfParity", "reps", reps, "outs", vals)
+	}
 	c.E("pt.Identity", "out", ptRaw(junk().Identity()))
 	c.E("pt.Identity", "out", ptRaw(secp256k1.NewIdentityPoint()))
 	c.E("pt.Generator", "out", ptRaw(junk().Generator()))
